@@ -239,6 +239,8 @@ pub const TPL_LITS: [&str; 17] = ["a", "-", "x.", "(b)", "a|b", "$", "[k]", "a+"
 pub const DEF_NAMES: [&str; 4] = ["Alpha", "Beta", "Gamma", "Delta"];
 pub const ODD_DEF_NAMES: [&str; 4] = ["Alpha$", "Bêta", "$Gamma", "Delta$x"];
 pub const ODD_DEF_NAMES2: [&str; 4] = ["Alpha$$a", "Beta$$", "$$Gamma", "Delta$$"];
+/// legal type names that every plain JavaScript object inherits from Object.prototype (a table keyed by type names must not find them there)
+pub const ODD_DEF_NAMES3: [&str; 4] = ["toString", "constructor", "valueOf", "hasOwnProperty"];
 
 struct G<'c> {
     cfg: &'c GenCfg,
@@ -672,7 +674,11 @@ pub fn gen_env_and_roots(s: &mut Src, cfg: &GenCfg, n_roots: usize) -> (Env, Vec
         // (odd but legal identifiers: `$` and non-ASCII letters, a doubled `$$`, and names that an object inherits from
         // Object.prototype)
         let name = if cfg.odd_names && s.chance(1, 12) {
-            if s.chance(1, 3) { ODD_DEF_NAMES2[i] } else { ODD_DEF_NAMES[i] }
+            match s.below(4) {
+                0 | 1 => ODD_DEF_NAMES[i],
+                2 => ODD_DEF_NAMES2[i],
+                _ => ODD_DEF_NAMES3[i],
+            }
         } else {
             DEF_NAMES[i]
         };
